@@ -4,7 +4,7 @@
 (* and the run of its output (machine B) from the same run-time inputs.    *)
 (* Each contract returns "ok" or the name of the first clause that fails.  *)
 (***************************************************************************)
-EXTENDS Integers, Sequences, Accfg, Csr, Bitwise, CsrLayout
+EXTENDS Integers, Sequences, Accfg, Csr, Bitwise, CsrLayout, Layout
 
 IsPrefixLen(a, b) == Len(a) <= Len(b)
 
@@ -81,12 +81,26 @@ RegFile(c, a, b) ==
        ELSE IF c.knm > 0 /\ got[ns + 1] * got[ns + 2] * got[ns + 3] # c.knm THEN "LoopCountsVsStreamSteps"
        ELSE "ok"
 
-Judge(contract, c, a, b) ==
+(* ---- C05: DMA lowering of a copy ---- *)
+(* source bytes are tagged with (their address + 1); every logical element must arrive at the address the
+   destination layout assigns to it; transfers stay inside the two layout footprints *)
+Footprint(d, w) == {d.base + Addr(d.L, idx) * w + k : idx \in Box(d.sizes), k \in 0..(w - 1)}
+DmaCopy(c, orc, a, b) ==
+  IF b.fault # "none" THEN "B.fault:" \o b.fault
+  ELSE LET src == orc.desc[c.srcarg]  dst == orc.desc[c.dstarg]  w == c.w  box == Box(src.sizes) IN
+    IF \E idx \in box, k \in 0..(w - 1) :
+         b.mem[dst.base + Addr(dst.L, idx) * w + k + 1] # src.base + Addr(src.L, idx) * w + k + 1 THEN "ElementsDelivered"
+    ELSE IF ~(b.rd \subseteq Footprint(src, w)) THEN "ReadsInsideSource"
+    ELSE IF ~(b.wr \subseteq Footprint(dst, w)) THEN "WritesInsideDestination"
+    ELSE "ok"
+
+Judge(contract, c, orc, a, b) ==
   IF a.fault # "none" THEN "skipA:" \o a.fault
   ELSE CASE contract \in {"dedup", "overlap", "trace"} -> AccfgObs(a, b)
          [] contract = "csr" -> CsrLowering(c, a, b)
          [] contract = "effects" -> SameEffects(a, b)
          [] contract = "packbits" -> PackBits(c, a, b)
          [] contract = "regfile" -> RegFile(c, a, b)
+         [] contract = "dma" -> DmaCopy(c, orc, a, b)
          [] OTHER -> "machinery:unknown-contract"
 =============================================================================
